@@ -1100,7 +1100,7 @@ func main() {
 	out := flag.String("out", "", "cases dir")
 	seed := flag.Uint64("seed", 1, "seed")
 	tier := flag.String("tier", "quick", "tier")
-	stage := flag.String("stage", "parse", "names|parse|sweep")
+	stage := flag.String("stage", "parse", "names|parse|sweep|repos")
 	flag.String("replay", "", "unused")
 	flag.Parse()
 	slog.SetDefault(slog.New(slog.NewTextHandler(io.Discard, nil))) // the code under test logs every failed verification
@@ -1112,6 +1112,8 @@ func main() {
 		err = parseStage(*out, *seed, *tier)
 	case "sweep":
 		err = sweepStage(*seed, *tier)
+	case "repos":
+		err = reposStage(*out, *seed, *tier)
 	default:
 		err = fmt.Errorf("unknown stage %q", *stage)
 	}
